@@ -33,8 +33,11 @@ var (
 		{"Bearer  tok", "borderline"}, {"Bearer\ttok", "borderline"}, {" Bearer tok", "borderline"}, {"Bearer tok ", "borderline"},
 	}
 	// "+info": the verifier returns a usable TokenInfo together with the error (as JWT libraries do)
-	c14Outcomes = []string{"ok", "invalid-token", "invalid-token-wrapped", "oauth-error", "other-error", "nil-info", "invalid-token+info", "oauth-error+info", "other-error+info"}
-	c14Stacked  = []bool{false, true}
+	c14Outcomes = []string{"ok", "invalid-token", "invalid-token-wrapped", "oauth-error", "other-error", "nil-info", "invalid-token+info", "oauth-error+info", "other-error+info",
+		// errors that match the sentinels only through errors.Is on a tree or an Is method
+		"invalid-token-joined", "invalid-token-double", "invalid-token-custom-is", "oauth-error-joined"}
+	// request variants, all run inside one bubble per cell of the product
+	c14Variants = []string{"get", "stacked", "post", "options-preflight"}
 	c14Scopes   = []struct{ required, granted []string }{
 		{nil, nil}, {nil, []string{"read"}}, {[]string{"read"}, []string{"read"}}, {[]string{"read"}, nil}, {[]string{"read", "admin"}, []string{"read"}},
 		{[]string{"read", "admin"}, []string{"admin", "read", "extra"}}, {[]string{"read", "admin"}, []string{"read", "read"}}, {[]string{"read", "read"}, []string{"read"}},
@@ -46,13 +49,13 @@ var (
 )
 
 func TestVerifC14(t *testing.T) {
-	total := len(c14Headers) * len(c14Outcomes) * len(c14Scopes) * len(c14Exps) * len(c14Opts) * len(c14Stacked)
+	total := len(c14Headers) * len(c14Outcomes) * len(c14Scopes) * len(c14Exps) * len(c14Opts)
 	cfg := vh.Config{
 		Property:   "C14",
 		Cases:      total,
 		Exhaustive: true,
-		Rule: fmt.Sprintf("complete product (%d cells): %d Authorization shapes x %d verifier outcomes x %d required/granted scope pairs x %d expirations (relative to now and skew, +-1 ns) x %d option combinations x {single middleware, the same behind an outer bearer middleware with its own verifier}, each through the real middleware in a synctest bubble. "+
-			"non-trivial: every cell whose header is syntactically clear-cut; distinct = distinct cells", total, len(c14Headers), len(c14Outcomes), len(c14Scopes), len(c14Exps), len(c14Opts)),
+		Rule: fmt.Sprintf("complete product (%d cases x %d request variants = %d cells): %d Authorization shapes x %d verifier outcomes (incl. errors matching the sentinels only via errors.Join, a double %%w or an Is method) x %d required/granted scope pairs x %d expirations (relative to now and skew, +-1 ns) x %d option combinations, each as {GET, GET behind an outer bearer middleware with its own verifier, POST with a body, OPTIONS with CORS preflight headers} through the real middleware in a synctest bubble. "+
+			"non-trivial: every case whose header is syntactically clear-cut; distinct = distinct cases", total, len(c14Variants), total*len(c14Variants), len(c14Headers), len(c14Outcomes), len(c14Scopes), len(c14Exps), len(c14Opts)),
 		MinNontrivial: 1000,
 		Assumptions: []string{"header shapes with extra blanks or tabs are borderline: either verdict (401, or treated as a credential) is accepted for them, but the handler/verdict must be consistent",
 			"when a token both lacks a scope and is expired, 401 and 403 are both acceptable"},
@@ -68,14 +71,23 @@ func TestVerifC14(t *testing.T) {
 		exp := c14Exps[i%len(c14Exps)]
 		i /= len(c14Exps)
 		optk := c14Opts[i%len(c14Opts)]
-		i /= len(c14Opts)
-		stacked := c14Stacked[i%len(c14Stacked)]
-		c.SetSpec(map[string]any{"header": hd.h, "class": hd.class, "verifier": outcome, "required": sc.required, "granted": sc.granted, "exp": exp, "opts": optk, "stacked": stacked})
-		c.Bubble("", func() { cellC14(c, hd.h, hd.class, outcome, sc.required, sc.granted, exp, optk, stacked) })
+		c.SetSpec(map[string]any{"header": hd.h, "class": hd.class, "verifier": outcome, "required": sc.required, "granted": sc.granted, "exp": exp, "opts": optk, "variants": c14Variants})
+		c.Bubble("", func() {
+			for _, v := range c14Variants {
+				if c.Violated() {
+					return
+				}
+				cellC14(c, hd.h, hd.class, outcome, sc.required, sc.granted, exp, optk, v)
+			}
+		})
+		if !c.Violated() && hd.class != "borderline" {
+			c.Nontrivial(fmt.Sprintf("%q/%s/%v/%v/%s/%s", hd.h, outcome, sc.required, sc.granted, exp, optk))
+		}
 	})
 }
 
-func cellC14(c *vh.Case, header, class, outcome string, required, granted []string, exp, optk string, stacked bool) {
+func cellC14(c *vh.Case, header, class, outcome string, required, granted []string, exp, optk string, variant string) {
+	stacked := variant == "stacked"
 	// move the (virtual) clock off the whole second the bubble starts at, so that
 	// nanosecond offsets around the deadline stay within one wall-clock second
 	time.Sleep(300*time.Millisecond + 7*time.Nanosecond)
@@ -149,6 +161,14 @@ func cellC14(c *vh.Case, header, class, outcome string, required, granted []stri
 			return info, fmt.Errorf("%w: invalid_request", auth.ErrOAuth)
 		case "other-error+info":
 			return info, errors.New("database down")
+		case "invalid-token-joined":
+			return nil, errors.Join(errors.New("kid unknown"), auth.ErrInvalidToken)
+		case "invalid-token-double":
+			return nil, fmt.Errorf("%w: %w", auth.ErrInvalidToken, errors.New("signature mismatch"))
+		case "invalid-token-custom-is":
+			return nil, c14IsErr{auth.ErrInvalidToken}
+		case "oauth-error-joined":
+			return nil, fmt.Errorf("request refused: %w", errors.Join(auth.ErrOAuth, errors.New("invalid_request")))
 		}
 		return nil, nil
 	}
@@ -165,7 +185,19 @@ func cellC14(c *vh.Case, header, class, outcome string, required, granted []stri
 		inner := h
 		h = auth.RequireBearerToken(func(context.Context, string, *http.Request) (*auth.TokenInfo, error) { return outerInfo, nil }, nil)(inner)
 	}
-	req := httptest.NewRequest("GET", "https://rs.example/mcp", nil)
+	var req *http.Request
+	switch variant {
+	case "post":
+		req = httptest.NewRequest("POST", "https://rs.example/mcp", strings.NewReader(`{"jsonrpc":"2.0","id":1,"method":"ping"}`))
+		req.Header.Set("Content-Type", "application/json")
+	case "options-preflight":
+		req = httptest.NewRequest("OPTIONS", "https://rs.example/mcp", nil)
+		req.Header.Set("Origin", "https://app.example")
+		req.Header.Set("Access-Control-Request-Method", "POST")
+		req.Header.Set("Access-Control-Request-Headers", "authorization, content-type")
+	default:
+		req = httptest.NewRequest("GET", "https://rs.example/mcp", nil)
+	}
 	if header != "" {
 		req.Header.Set("Authorization", header)
 	}
@@ -199,9 +231,9 @@ func cellC14(c *vh.Case, header, class, outcome string, required, granted []stri
 	switch {
 	case class == "invalid":
 		want = []int{401}
-	case outcome == "invalid-token" || outcome == "invalid-token-wrapped" || outcome == "invalid-token+info":
+	case strings.HasPrefix(outcome, "invalid-token"):
 		want = []int{401}
-	case outcome == "oauth-error" || outcome == "oauth-error+info":
+	case strings.HasPrefix(outcome, "oauth-error"):
 		want = []int{400}
 	case outcome == "other-error" || outcome == "nil-info" || outcome == "other-error+info":
 		want = []int{500}
@@ -224,7 +256,7 @@ func cellC14(c *vh.Case, header, class, outcome string, required, granted []stri
 		}
 	}
 	if !ok {
-		c.Violate("wrong-admission", "header %q, verifier %s, required %v granted %v, exp %s, opts %s: status %d, reference predicate expects %v", header, outcome, effRequired, granted, exp, optk, st, want)
+		c.Violate("wrong-admission", "request %s, header %q, verifier %s, required %v granted %v, exp %s, opts %s: status %d, reference predicate expects %v", variant, header, outcome, effRequired, granted, exp, optk, st, want)
 		return
 	}
 	if admitted {
@@ -276,7 +308,10 @@ func cellC14(c *vh.Case, header, class, outcome string, required, granted []stri
 	if admitted {
 		c.Count("admitted", 1)
 	}
-	if class != "borderline" {
-		c.Nontrivial(fmt.Sprintf("%q/%s/%v/%v/%s/%s/%v", header, outcome, effRequired, granted, exp, optk, stacked))
-	}
 }
+
+// c14IsErr matches its target only through an Is method (no Unwrap chain).
+type c14IsErr struct{ target error }
+
+func (e c14IsErr) Error() string        { return "token rejected by policy" }
+func (e c14IsErr) Is(target error) bool { return target == e.target }
